@@ -376,6 +376,24 @@ func c12KF(c c12Case, v *Violation) []string {
 			}
 		}
 	}
+	if v.Kind == "restoration" {
+		// a feature whose own parts overlap (a programmed frameshift: join(1..10,10..30)) cut at a position that two of
+		// its parts contain: both parts are cut, the fragments hold two cut ends each, and Repair - which joins the last
+		// part of one fragment to the first part of the next - does not put them back
+		for _, f := range c.Feats {
+			for _, k := range c.Cuts {
+				n := 0
+				for _, x := range f.Loc.leaves() {
+					if (x.K == "rg" || x.K == "am") && x.A < k && k < x.B {
+						n++
+					}
+				}
+				if n >= 2 {
+					sigs = append(sigs, "cut-through-self-overlap")
+				}
+			}
+		}
+	}
 	return sigs
 }
 
@@ -467,6 +485,23 @@ func c12Gen(t *rapid.T) c12Case {
 			l := c12Shape(t, L)
 			if key == "source" {
 				l = lrg(0, L)
+			}
+			if rapid.IntRange(0, 5).Draw(t, "frameshift") == 0 {
+				// neighbouring parts that share their last / first bases (a programmed frameshift)
+				inner := &l
+				if inner.K == "co" {
+					inner = &inner.Parts[0]
+				}
+				if inner.K == "jn" || inner.K == "or" {
+					for pi := 1; pi < len(inner.Parts); pi++ {
+						prev, cur := inner.Parts[pi-1], &inner.Parts[pi]
+						if prev.K == "rg" && cur.K == "rg" {
+							if a := prev.B - rapid.IntRange(1, 3).Draw(t, "overlap"); a > prev.A && a < cur.B {
+								cur.A = a
+							}
+						}
+					}
+				}
 			}
 			canon, _ := fromGts(toGts(l))
 			quals := [][]string{{"label", fmt.Sprintf("u%d", i)}}
